@@ -1,6 +1,10 @@
 package proto
 
-import "github.com/go-faster/errors"
+import (
+	"strings"
+
+	"github.com/go-faster/errors"
+)
 
 // ColTuple is Tuple column.
 //
@@ -38,6 +42,8 @@ type ColNamed[T any] struct {
 
 func (c *ColNamed[T]) Infer(t ColumnType) error {
 	if v, ok := c.ColumnOf.(Inferable); ok {
+		// Element of named tuple is "name Type".
+		t = ColumnType(strings.TrimPrefix(string(t), c.Name+" "))
 		if err := v.Infer(t); err != nil {
 			return errors.Wrap(err, "named")
 		}
@@ -107,10 +113,15 @@ func (c ColTuple) Prepare() error {
 }
 
 func (c ColTuple) Infer(t ColumnType) error {
-	for _, v := range c {
+	elems := splitTypeParams(string(t.Elem()))
+	if len(elems) != len(c) {
+		return errors.Errorf("tuple of %d elements can't be inferred from %q", len(c), t)
+	}
+	for i, v := range c {
 		if s, ok := v.(Inferable); ok {
-			if err := s.Infer(t); err != nil {
-				return errors.Wrap(err, "infer")
+			// Each element is inferred from its own type.
+			if err := s.Infer(ColumnType(elems[i])); err != nil {
+				return errors.Wrapf(err, "infer [%d]", i)
 			}
 		}
 	}
